@@ -156,6 +156,8 @@ package participle
 //@   ensures len(ctx.apply) >= len(old(ctx.apply)) && forall(k, 0, len(old(ctx.apply)), ctx.apply[k] == old(ctx.apply[k]))
 //@   ensures forall(k, len(old(ctx.apply)), len(ctx.apply), ctx.apply[k] != nil && ctx.apply[k].strct == parent)
 //@   ensures errOK(result1) && errOK(ctx.deepestError)
+//@   ensures @fmKeep old(ctx.firstMatch) >= 0 ==> ctx.firstMatch == old(ctx.firstMatch) [C10 C01]
+//@   ensures @fmFirst old(ctx.firstMatch) < 0 && ctx.firstMatch >= 0 ==> old(ctx.rawCursor) <= ctx.firstMatch && ctx.firstMatch <= ctx.rawCursor [C10 C01]
 
 // The property's own predicate for "<identifier>" and for a literal "s"[:Type] (C10, C01):
 //@ spec fn refMatch(r *reference, t lexer.Token) bool = t.Type == r.typ
@@ -167,6 +169,7 @@ package participle
 //@ func (*reference).Parse [C10 C01 C06 C02]
 //@   frame-tags C09
 //@   implements node.Parse
+//@   ensures @fmExact out != nil && old(ctx.firstMatch) < 0 ==> ctx.rawCursor - 1 <= ctx.firstMatch && ctx.firstMatch <= ctx.rawCursor && (ctx.firstMatch == ctx.rawCursor ==> eofAt(&ctx.PeekingLexer, ctx.firstMatch)) [C10 C01]
 //@   ensures err == nil
 //@   ensures out == nil ==> ctx.Checkpoint == old(ctx.Checkpoint) && forall(k, old(ctx.rawCursor), old(ctx.nextCursor)+1, !refMatch(r, ctx.tokens[k]))
 //@   ensures out != nil ==> len(out) == 1
@@ -176,6 +179,7 @@ package participle
 //@ func (*literal).Parse [C10 C01 C06 C02]
 //@   frame-tags C09
 //@   implements node.Parse
+//@   ensures @fmExact out != nil && old(ctx.firstMatch) < 0 ==> ctx.rawCursor - 1 <= ctx.firstMatch && ctx.firstMatch <= ctx.rawCursor && (ctx.firstMatch == ctx.rawCursor ==> eofAt(&ctx.PeekingLexer, ctx.firstMatch)) [C10 C01]
 //@   ensures err == nil
 //@   ensures out == nil ==> ctx.Checkpoint == old(ctx.Checkpoint) && forall(k, old(ctx.rawCursor), old(ctx.nextCursor)+1, !litMatch(l, ctx, ctx.tokens[k]))
 //@   ensures out != nil ==> len(out) == 1
@@ -278,6 +282,7 @@ package participle
 //@   loop 1 invariant forall(k, len(old(ctx.apply)), len(ctx.apply), ctx.apply[k] != nil && ctx.apply[k].strct == parent)
 //@   loop 1 invariant len(out) == 0 ==> ctx.Checkpoint == old(ctx.Checkpoint) && len(ctx.apply) == len(old(ctx.apply))
 //@   loop 1 invariant n == s ==> len(out) == 0
+//@   loop 1 invariant true && (old(ctx.firstMatch) >= 0 ==> ctx.firstMatch == old(ctx.firstMatch)) && (old(ctx.firstMatch) < 0 && ctx.firstMatch >= 0 ==> old(ctx.rawCursor) <= ctx.firstMatch && ctx.firstMatch <= ctx.rawCursor)
 //@   loop 1 nonterminating-ok
 
 // Ordered choice: alternatives in index order, each on a fresh branch; the first that matches is adopted;
@@ -288,7 +293,7 @@ package participle
 //@   use wfDisjunction(d) at entry
 //@   allow-panic 1 "documented grammar-bug panic (an alternative matched without consuming); excluded by C06's premise"
 //@   loop 1 invariant -1 <= rangeindex && rangeindex < len(d.nodes) && pcInv(ctx)
-//@   loop 1 invariant ctx.PeekingLexer == old(ctx.PeekingLexer) && ctx.apply == old(ctx.apply)
+//@   loop 1 invariant ctx.PeekingLexer == old(ctx.PeekingLexer) && ctx.apply == old(ctx.apply) && ctx.firstMatch == old(ctx.firstMatch)
 //@   loop 1 invariant errOK(firstError) && errOK(ctx.deepestError)
 //@   loop 1 decreases len(d.nodes) - rangeindex
 //@   ensures err == nil && out == nil ==> ctx.PeekingLexer == old(ctx.PeekingLexer) && ctx.apply == old(ctx.apply)
@@ -307,6 +312,7 @@ package participle
 //@   loop 1 invariant forall(k, 0, len(old(ctx.apply)), ctx.apply[k] == old(ctx.apply[k]))
 //@   loop 1 invariant forall(k, len(old(ctx.apply)), len(ctx.apply), ctx.apply[k] != nil && ctx.apply[k].strct == parent)
 //@   loop 1 invariant len(out) == 0 ==> ctx.Checkpoint == old(ctx.Checkpoint) && len(ctx.apply) == len(old(ctx.apply))
+//@   loop 1 invariant true && (old(ctx.firstMatch) >= 0 ==> ctx.firstMatch == old(ctx.firstMatch)) && (old(ctx.firstMatch) < 0 && ctx.firstMatch >= 0 ==> old(ctx.rawCursor) <= ctx.firstMatch && ctx.firstMatch <= ctx.rawCursor)
 //@   loop 1 decreases max - matches
 
 // A sub-production "@@": a fresh struct; Pos/EndPos/Tokens describe exactly the tokens it consumed (C11);
